@@ -1583,6 +1583,12 @@ pub fn family(name: &str, tier: &str) -> Vec<Program> {
                 out.push(Program { cfg: c.clone(), prefix: pre.clone(), threads: vec![vec![TOp::Iter], vec![TOp::Ins(0, 1), TOp::Ins(1, 1)]] });
                 out.push(Program { cfg: c.clone(), prefix: pre.clone(), threads: vec![vec![TOp::Iter], vec![TOp::Ins(2, 1)], vec![TOp::Ins(0, 1)]] });
                 out.push(Program { cfg: c.clone(), prefix: pre.clone(), threads: vec![vec![TOp::Iter], vec![TOp::Get(0), TOp::Ins(1, 1)]] });
+                // NEW keys arriving while the iteration is under way: it may or may not
+                // yield them, but every key that stays resident is yielded
+                let mut c5 = c.clone();
+                c5.nkeys = 5;
+                out.push(Program { cfg: c5.clone(), prefix: pre.clone(), threads: vec![vec![TOp::Iter], vec![TOp::Ins(3, 1)]] });
+                out.push(Program { cfg: c5.clone(), prefix: pre.clone(), threads: vec![vec![TOp::Iter], vec![TOp::Ins(3, 1), TOp::Ins(4, 1)]] });
             }
             // iteration while maintenance purges expired entries that a writer refreshes
             for hash in [HashKind::SameShard, HashKind::Spread] {
